@@ -169,6 +169,38 @@ def autodetect_case(variant, bom, root):
     return viol
 
 
+def long_lines_case(root, enc, eol, with_model=True):
+    """lines of several thousand characters (a physical line has no length limit; the $HEX[] form of a password is more than twice as
+    long as the plain one, the counted form a few characters longer): the same sequence in all three forms"""
+    viol, ops, exp = [], [], []
+    longs = ['ab1!' * 525, 'x' * 4095, 'y' * 4096, 'Zz9' * 1366, 'é' * 2050 + 'end', 'short1', 'q' * 9001, 'w w' * 700]
+    rep = [(w.encode(enc), n) for w, n in zip(longs, [1, 2, 1, 3, 1, 2, 1, 2])]
+    pl, ph, pcn = (os.path.join(root, n) for n in ('l1.txt', 'l2.txt', 'l3.txt'))
+    with open(pl, 'wb') as f:
+        for b, n in rep:
+            f.write((b + eol) * n)
+    with open(ph, 'wb') as f:
+        for b, n in rep:
+            f.write((b'$HEX[' + b.hex().encode() + b']' + eol) * n)
+    with open(pcn, 'wb') as f:
+        for b, n in rep:
+            f.write(str(n).encode() + b' ' + b + eol)
+    want = [w for w, (_, n) in zip(longs, rep) for _ in range(n)]
+    for path, prefix, kind in ((pl, False, 'long-plain-lines-differ'), (ph, False, 'hex-differs-from-plain'), (pcn, True, 'count-prefix-differs-from-repeats')):
+        got, n_, e_, err = real_read(path, enc, prefix)
+        if err or got != want or n_ != len(want):
+            viol.append({'property': 'C19', 'kind': kind, 'yielded': [(len(x), x[:12]) for x in (got or [])][:8], 'want_lengths': [len(x) for x in want][:8],
+                         'total': n_, 'error': err, 'witness': {'long_lines': True, 'encoding': enc, 'crlf': eol == b'\r\n'}})
+        elif with_model and path != pcn:
+            text = file_text(path, enc)
+            pre = model_ops(text, enc, False)
+            ops += pre
+            exp += ['ok'] * len(pre)
+            ops.append('rd.read 0 ' + cps(text))
+            exp.append(' '.join([f"n={n_}", f"e={e_}"] + [cps(p) for p in got]))
+    return viol, ops, exp
+
+
 def run(ctx):
     rng = ctx.rng
     viol, samples, disagreements = [], [], []
@@ -255,6 +287,13 @@ def run(ctx):
             nontrivial += 1
         if len(samples) < 3 and 'hex' in kinds and 'plain' in kinds:
             samples.append({'encoding': enc, 'lines': [b.decode(enc, errors='replace') for _, b in lines][:6], 'yielded': outA[:6]})
+    for enc, eol in (('utf-8', b'\n'), ('latin-1', b'\r\n')):
+        vs_, ops_, exp_ = long_lines_case(root, enc, eol, ctx.driver_ok)
+        viol += vs_
+        ops += ops_
+        exp += exp_
+        cases += 1
+        dist['long_line_files'] = dist.get('long_line_files', 0) + 3
     # full trained rulesets: plain repeated vs hex vs count-prefixed
     for i in range(ctx.scale(4, 12)):
         enc = rng.choice(['utf-8', 'cp1251'])
@@ -350,6 +389,9 @@ def replay(ctx, payload):
         return autodetect_case(w0['autodetect'], b'\xef\xbb\xbf' if w0['autodetect'] == 'bom' else b'', common.scratch_dir('c19'))
     w = payload.get('violation', {}).get('witness') or {}
     root = common.scratch_dir('c19r')
+    if w.get('long_lines'):
+        common.use_impl()
+        return long_lines_case(root, w.get('encoding', 'utf-8'), b'\r\n' if w.get('crlf') else b'\n', False)[0]
     enc = w.get('encoding', 'utf-8')
     out = []
     if w.get('trained'):
